@@ -12,32 +12,32 @@ CHECKS = {
          "DESIGN.md section 4 C01"),
 
  "C06": ("runtime monitoring: process-boundary trace (exit status + stdout bytes) of the same run under --format text/json/sarif; offline checker with independent extractors, structural SARIF 2.1.0 validator, exit-code law, usage-error classes",
-         "Held on the executions observed: all 20 linter commands x 3 formats over trigger projects with zero/one/many violations, hostile names and messages, and 14 usage-error classes; evidence lists commands, record counts and classes seen.",
+         "Held on the executions observed: all 20 linter commands x 3 formats over trigger projects with zero/one/many violations, hostile names and messages, and about 110 usage-error classes (missing paths / configs, unparsable files, bad options, an invalid regex in 11 positions of a file-placement configuration x 3 carriers, out-of-domain and non-numeric thresholds per linter); evidence lists commands, record counts and classes seen.",
          "Trusted: the extractors in vlib/oracles/formats.py; text form path[:line][:column]; text not judged when a path or message contains a newline; group-level --config (application config, documented fallback to defaults) is not treated as a usage error.",
          "DESIGN.md section 4 C06"),
 
  "C07": ("runtime monitoring: sequential-vs-parallel result histories at the library and CLI boundary; schedule controller forcing seeded completion orders of the worker futures (natural orders recorded); exactly-once dispatch monitor fed by events from the forked pool workers",
-         "Held on the executions observed: worker counts 1..16, file counts on both sides of the 2 x workers fallback threshold, forced and natural completion orders, per-file and cross-file rules, invalid-configuration variant; evidence lists orders, pids and dispatch events seen.",
+         "Held on the executions observed: worker counts 1..16, file counts on both sides of the 2 x workers fallback threshold, forced and natural completion orders, per-file and cross-file rules, invalid-configuration variant, overlapping targets, --no-recursive, empty explicit configs, Orchestrator objects with a history (an earlier run, a configuration loaded afterwards) asked through both entry points; evidence lists orders, pids and dispatch events seen.",
          "Trusted: the sequential run as specification; fork start method (wrappers inherited by workers); completion orders are permuted in the parent after all futures finished.",
          "DESIGN.md section 4 C07"),
 
  "C10": ("runtime monitoring: boundary trace of directory / per-file / file-list CLI runs and Linter.lint calls (forked child) on generated trees; union-law and CLI==library oracles over violation multisets",
-         "Held on the executions observed: all 20 commands on generated multi-language trees, directory vs union of files, random file lists and mixed file+directory lists, CLI vs library for files, directories and cross-file rules; evidence counts each comparison kind.",
+         "Held on the executions observed: all 20 commands on generated multi-language trees, directory vs union of files (also under --parallel / --no-recursive / both), random file lists and mixed file+directory lists, CLI vs library for files, directories and cross-file rules; evidence counts each comparison kind.",
          "Trusted: path normalisation against the working directory; the library rule name is the one each linter's docs pass to Linter.lint(rules=[...]); union laws only for per-file rules.",
          "DESIGN.md section 4 C10"),
 
  "C09": ("runtime monitoring: boundary trace of identical project content under different parent directories / working directories / target spellings; relational oracle against the reference run after mapping reported paths (also inside messages) to project-relative paths",
-         "Held on the executions observed: every built-in excluded directory name and test-marker substring as parent, ten spellings (dot, absolute, relative, .., sibling, file lists, --project-root), all 20 commands; evidence counts comparisons per parent class and spelling.",
+         "Held on the executions observed: every built-in excluded directory name and test-marker substring as parent, fifteen spellings (dot, absolute, relative, .., sibling, file lists, --project-root, from inside sub-directories), the same under --parallel, a library walk (one process, the same relative spellings from one working directory after another, compared with fresh processes given absolute paths), per-linter ignore patterns named like possible parent directories, all 20 commands; evidence counts comparisons per parent class and spelling.",
          "Trusted: the path normaliser; each generated project root carries a .git/ marker; the reference is '.' from inside an innocuous parent.",
          "DESIGN.md section 4 C09"),
 
  "C15": ("runtime monitoring: boundary trace of every command over trigger, polyglot (swapped-language / unsupported-type) and twin (extension case, tsx/jsx, shebang) projects and under random foreign configuration sections; rule-family, silence and relational oracles",
-         "Held on the executions observed: 20 commands x rule-id family, random valid settings of the other linters' sections (hyphen/underscore), language-specific linters on other-language and unrecognised files, extension-case/tsx/jsx/shebang twins; evidence counts each relation.",
+         "Held on the executions observed: 20 commands x rule-id family, random valid settings of the other linters' sections (hyphen/underscore; repeated under --parallel on a padded project, including the other cross-file rule switched off), language-specific linters on other-language and unrecognised files, extension-case/tsx/jsx/shebang twins; evidence counts each relation.",
          "Trusted: the family table from the docs; which linters are language-specific (per-linter docs); file-placement and file-header are exempt from the unrecognised-type clause (they document non-source types).",
          "DESIGN.md section 4 C15"),
 
  "C08": ("runtime monitoring: (a) permuted-argument runs, (b) PYTHONHASHSEED sweep on the real console script, (c) scripted histories (lint/edit/delete/add/touch) on one long-lived Linter/Orchestrator checked offline against a fresh-object specification recomputed in a pristine process, (d) sys.addaudithook mutation log + before/after tree snapshots + TMPDIR/HOME residue on real processes (sequential, --parallel, both DRY storage modes)",
-         "Held on the executions observed; evidence lists permutations, seeds, history lengths and operation mix, fresh-vs-reused comparisons, audit events by kind and pids seen.",
+         "Held on the executions observed (order and hash-seed workloads include 'crowded' projects with more call sites / occurrences / files per finding than a message lists); evidence lists permutations, seeds, history lengths and operation mix, fresh-vs-reused comparisons, audit events by kind and pids seen.",
          "Trusted: 'fresh object in a pristine forked process on the re-materialised disk state' as the specification of each call; messages compared after removing the project-root prefix.",
          "DESIGN.md section 4 C08"),
 
@@ -52,12 +52,12 @@ CHECKS = {
          "DESIGN.md section 4 C16"),
 
  "C17": ("runtime monitoring: boundary trace of `thailint unwrap-abuse|clone-abuse|blocking-async` on generated Rust files with planted calls of known kind, line and context (test/async/loop/wrapper); exact (rule id, line) multiset oracle per option setting",
-         "Held on the executions observed: sync/async functions, impl methods, #[test]/#[tokio::test] mixed with other attributes and comments, #[cfg(test)] and plain modules (nested), loops of every kind, chains, look-alikes, blocking wrappers, calls inside macro arguments, std::net types imported by name, awaited async twins; allow_in_tests / allow_expect / detect_* swept in yaml/json with hyphen/underscore section names; evidence counts planted calls per kind and context.",
+         "Held on the executions observed: sync/async functions, impl methods, #[test]/#[tokio::test] mixed with other attributes and comments, #[cfg(test)] and plain modules (nested), loops of every kind, chains, look-alikes, blocking wrappers, calls inside macro arguments, std::net types imported by name, awaited async twins, risky calls as sub-expressions (arguments, conditions, scrutinees, inside awaited calls / chains / async blocks); allow_in_tests / allow_expect / detect_* swept in yaml/json with hyphen/underscore section names; evidence counts planted calls per kind and context.",
          "Trusted: generator ground truth; clone statements constructed to fall into exactly one documented category; constructs the documentation is silent about are not generated.",
          "DESIGN.md section 4 C17"),
 
  "C18": ("runtime monitoring: boundary trace of `thailint file-placement` under generated rule sets (inline --rules, yaml/json section hyphen/underscore, --config) over a tree with look-alike directories; reference evaluator written from the property text; invalid-regex cases must exit 2",
-         "Held on the executions observed: random rule sets over a directory/pattern alphabet (nested directory rules, overlapping allow/deny, global_deny, global_patterns) x 21 paths, runs from the root and from a sub-directory; thorough tier enumerates all directory-key pairs x 3x3 rule bodies exhaustively; evidence counts verdicts and carriers.",
+         "Held on the executions observed: random rule sets over a directory/pattern alphabet (nested directory rules, overlapping allow/deny, global_deny, global_patterns) x 29 paths (4 of them symbolic links across rule boundaries), runs from the root and from a sub-directory, relative and absolute target spelling; thorough tier enumerates all directory-key pairs x 3x3 rule bodies exhaustively; evidence counts verdicts and carriers.",
          "Trusted: the reference evaluator (deny over allow, most specific containing directory by path components, directory over global, re.search case-insensitive); files compared as a set.",
          "DESIGN.md section 4 C18"),
 
@@ -72,7 +72,7 @@ CHECKS = {
          "DESIGN.md section 4 C03"),
 
  "C04": ("runtime monitoring: base run vs variant run (one suppression directive inserted) of every linter command and of an unrelated witness command, for every cell of the matrix linter x language x directive form x rule-name spelling x placement; a scope model written from the property text predicts the variant",
-         "Held on the executions observed: 19 commands (lazy-ignores excluded as a subject), py/ts/rs files, same-line / next-line / block / file-level (lines 1,5,10 in scope, 11,40 out of scope) / .thailintignore / config ignore / per-linter ignore, spellings full id / prefix / prefix.* / alias / upper case / list / bare, negative controls (other rule, placed away); thorough tier enumerates the whole matrix; evidence counts cells ok/fail.",
+         "Held on the executions observed: 19 commands (lazy-ignores excluded as a subject), py/ts/rs files, same-line / next-line / block / file-level (lines 1,5,10 in scope, 11,40 out of scope) / .thailintignore / config ignore / per-linter ignore (exact path in the matrix; every pattern form of docs/configuration.md - exact, **/name, dir/**, **/dir/**, name_*.ext, substring, nested tests/** - for the 16 linters that document the option), spellings full id / prefix / prefix.* / alias / upper case / list / bare, negative controls (other rule, placed away); thorough tier enumerates the whole matrix; evidence counts cells ok/fail.",
          "Trusted: the scope model and the rule-name matcher (vlib/props/c04.py); line numbers inside messages are masked; per-linter ignore is judged only for linters whose documentation lists the option; file-header/file-placement only with forms that do not alter their subject.",
          "DESIGN.md section 4 C04"),
  "C05": ("runtime monitoring: boundary trace of linter commands on a staircase probe project (constructs straddling every threshold value) under the same setting written through .thailint.yaml / .thailint.json / pyproject.toml / --config (command and group level) with hyphen or underscore section names; relational oracles (carrier equivalence, enabled:false silence, effect + monotonicity along sweeps, precedence decoding, top-level ignore, exit 2 for invalid values and unparsable files)",
@@ -101,7 +101,7 @@ CHECKS = {
          "DESIGN.md section 4 C20"),
 
  "C19": ("runtime monitoring: boundary trace of the documented command (Linter.lint for cqs) on every labelled code block re-extracted from docs/*-linter.md at run time, as is and under embeddings (unrelated code before/after, inside a function / an if block, repeated with renamed definitions); conformance + relational oracle",
-         "Held on the executions observed: all fenced python/typescript/javascript/rust blocks with a violating ('Code with violation(s)', 'Detects', 'Before' outside refactoring sections) or acceptable ('Refactored code', 'After', 'EAFP alternative', 'Fixed code') label, with the configuration the doc attaches to them; pattern-linter examples under 6 embeddings; evidence counts blocks total/judged/skipped and embeddings checked.",
+         "Held on the executions observed: all fenced python/typescript/javascript/rust blocks with a violating ('Code with violation(s)', 'Detects', 'Before' outside refactoring sections) or acceptable ('Refactored code', 'After', 'EAFP alternative', 'Fixed code') label, with the configuration the doc attaches to them; blocks that mark their parts with '# Detected ... / # Not detected ...' comments are split into examples; pattern-linter examples under about 30 embeddings (filler, function / if / for / while / class / try / with / else / except / finally / match arms / async def, renamed identifiers, import variants, TS scopes); evidence counts blocks total/judged/skipped and embeddings checked.",
          "Trusted: the label classification (vlib/gen/docs.py) and the hand-reviewed exceptions in corpus/overrides.json; 'Before' blocks of refactoring sections and elided code are only used relationally; embeddings that do not parse are discarded.",
          "DESIGN.md section 4 C19"),
 }
